@@ -1,5 +1,7 @@
 package mc
 
+import "fmt"
+
 // Sequences calls f with every sequence over {0..n-1} of length 0..maxLen, in
 // order of increasing length and lexicographically within one length (simplest
 // first).  The slice passed to f is reused.  f returning false stops the walk.
@@ -70,4 +72,97 @@ func Subsets(n, lo, hi int, f func(s []int) bool) {
 			return
 		}
 	}
+}
+
+// Model is one instance of the real system under test together with its reference model.
+// Apply performs event ev on both and returns "" or the oracle failure; Key is the
+// canonical state (implementation dump + reference state) used to merge histories.
+type Model interface {
+	Apply(ev int) string
+	Key() string
+}
+
+// BFSOpts configures an explicit-state breadth-first search over event histories.
+type BFSOpts struct {
+	Name     string
+	NEvents  int
+	MaxDepth int
+	EvName   func(ev int) string
+	// Run executes body with a fresh instance; it is the place to open a synctest bubble
+	// (virtual time).  body must be called exactly once.
+	Run func(body func(m Model))
+	// Classify maps an oracle failure to a known-findings key (default: first word).
+	Classify  func(fail string, path []int) string
+	MaxStates int // cap (0 = none)
+}
+
+type BFSReplay struct {
+	Model  string   `json:"model"`
+	Path   []int    `json:"path"`
+	Events []string `json:"events"`
+}
+
+// BFS explores every event history up to MaxDepth, merging histories that reach the same
+// state key; a successor is a fresh instance + replay of the shortest path + one event,
+// so every transition is an execution of the real implementation.
+func BFS(r *Run, o BFSOpts) (states, transitions int) {
+	type node struct{ path []int }
+	seen := map[string]bool{}
+	var initKey string
+	o.Run(func(m Model) { initKey = m.Key() })
+	seen[initKey] = true
+	frontier := []node{{nil}}
+	for depth := 0; depth < o.MaxDepth && len(frontier) > 0; depth++ {
+		var next []node
+		for _, n := range frontier {
+			for ev := 0; ev < o.NEvents; ev++ {
+				var fail, key string
+				o.Run(func(m Model) {
+					for _, e := range n.path {
+						m.Apply(e)
+					}
+					fail = m.Apply(ev)
+					key = m.Key()
+				})
+				transitions++
+				r.Add("transitions", 1)
+				path := append(append([]int{}, n.path...), ev)
+				if fail != "" {
+					k := fail
+					if o.Classify != nil {
+						k = o.Classify(fail, path)
+					} else if i := indexSpace(fail); i > 0 {
+						k = fail[:i]
+					}
+					var names []string
+					for _, e := range path {
+						names = append(names, o.EvName(e))
+					}
+					r.Violation(k, fmt.Sprintf("%s history %v: %s", o.Name, names, fail), BFSReplay{o.Name, path, names})
+					continue // do not explore beyond a violating transition
+				}
+				if !seen[key] {
+					seen[key] = true
+					next = append(next, node{path})
+					if o.MaxStates > 0 && len(seen) >= o.MaxStates {
+						r.Cap(fmt.Sprintf("%s: state cap %d at depth %d", o.Name, o.MaxStates, depth+1))
+						r.Add("states", int64(len(seen)))
+						return len(seen), transitions
+					}
+				}
+			}
+		}
+		frontier = next
+	}
+	r.Add("states", int64(len(seen)))
+	return len(seen), transitions
+}
+
+func indexSpace(s string) int {
+	for i := 0; i < len(s); i++ {
+		if s[i] == ' ' {
+			return i
+		}
+	}
+	return -1
 }
